@@ -37,6 +37,7 @@ def main():
   ap.add_argument('--tier', default='quick')
   ap.add_argument('--needs', default='')
   ap.add_argument('--scratch', action='store_true', help='evaluate against a scratch copy (VERIF_REPO) instead of patching /repo in place')
+  ap.add_argument('--no-confirm', action='store_true', help='skip the confirmation in a scratch worktree (re-evaluation of an already confirmed change)')
   a = ap.parse_args()
   dst = os.path.join(VERIF, 'seeded', a.name)
   os.makedirs(dst, exist_ok=True)
@@ -48,6 +49,13 @@ def main():
   patch = os.path.join(dst, 'patch.diff')
   meta = dict(property=a.prop, name=a.name, needs=a.needs, ran=[])
 
+  if a.no_confirm and os.path.exists(os.path.join(dst, 'meta.json')):
+    old = json.load(open(os.path.join(dst, 'meta.json')))
+    for k in ('demo_unchanged_rc', 'patch_applies', 'tests_with_change', 'demo_with_change_rc', 'confirmed', 'assessment'):
+      if k in old:
+        meta[k] = old[k]
+    meta['ran'] = [x for x in old.get('ran', []) if str(x).startswith('scratch worktree')]
+    return evaluate(a, dst, patch, meta)
   # ---- confirmation in a scratch worktree
   wt = tempfile.mkdtemp(prefix='seedwt-')
   os.rmdir(wt)
@@ -70,6 +78,10 @@ def main():
     sh('git -C /repo worktree remove --force %s' % wt)
   print('confirmation:', json.dumps({k: meta[k] for k in ('patch_applies', 'tests_with_change', 'demo_unchanged_rc', 'demo_with_change_rc', 'confirmed')}))
 
+  evaluate(a, dst, patch, meta)
+
+
+def evaluate(a, dst, patch, meta):
   # ---- our checks against the change applied to /repo
   checks = (a.checks or a.prop).split(',')
   results = {}
@@ -119,6 +131,8 @@ def main():
   meta['checks_history'] = old_checks
   if not meta['needs'] and old.get('needs'):
     meta['needs'] = old['needs']
+  if old.get('assessment') and not meta.get('assessment'):
+    meta['assessment'] = old['assessment']
   json.dump(meta, open(mp, 'w'), indent=1)
 
 
